@@ -168,8 +168,12 @@ carquet_status_t carquet_schema_add_column(
 
     /* Track as leaf */
     schema->leaf_indices[schema->num_leaves] = elem_idx;
-    schema->max_def_levels[schema->num_leaves] = (repetition == CARQUET_REPETITION_OPTIONAL) ? 1 : 0;
-    schema->max_rep_levels[schema->num_leaves] = (repetition == CARQUET_REPETITION_REPEATED) ? 1 : 0;
+    /* Top-level leaf: optional and repeated both add a definition level,
+     * repeated also adds a repetition level. */
+    elem->max_def_level = (repetition != CARQUET_REPETITION_REQUIRED) ? 1 : 0;
+    elem->max_rep_level = (repetition == CARQUET_REPETITION_REPEATED) ? 1 : 0;
+    schema->max_def_levels[schema->num_leaves] = elem->max_def_level;
+    schema->max_rep_levels[schema->num_leaves] = elem->max_rep_level;
     schema->num_leaves++;
 
     return CARQUET_OK;
@@ -291,13 +295,13 @@ carquet_field_repetition_t carquet_schema_node_repetition(const carquet_schema_n
 int16_t carquet_schema_node_max_def_level(const carquet_schema_node_t* node) {
     /* node is nonnull per API contract */
     const parquet_schema_element_t* elem = (const parquet_schema_element_t*)node;
-    return (elem->repetition_type == CARQUET_REPETITION_OPTIONAL) ? 1 : 0;
+    return elem->max_def_level;
 }
 
 int16_t carquet_schema_node_max_rep_level(const carquet_schema_node_t* node) {
     /* node is nonnull per API contract */
     const parquet_schema_element_t* elem = (const parquet_schema_element_t*)node;
-    return (elem->repetition_type == CARQUET_REPETITION_REPEATED) ? 1 : 0;
+    return elem->max_rep_level;
 }
 
 int32_t carquet_schema_node_type_length(const carquet_schema_node_t* node) {
